@@ -274,7 +274,7 @@ func c02Single(c *Ctx) *RuleResult {
 			}
 			cu := cs.Unit
 			byWorker := exprStr(call.Args[2]) == "true"
-			cconstruct := constructOf(cu, "complete("+exprStr(call.Args[2])+")@"+shortCause(call.Args[1]))
+			cconstruct := constructOf(cu, "complete("+exprStr(call.Args[2])+")@"+shortCauseIn(cu, call.Args[1]))
 			if byWorker {
 				// the response must be a parameter of the caller passed through unchanged
 				id, ok := ast.Unparen(call.Args[1]).(*ast.Ident)
@@ -296,7 +296,7 @@ func c02Single(c *Ctx) *RuleResult {
 				}
 				continue
 			}
-			cause := shortCause(call.Args[1])
+			cause := shortCauseIn(cu, call.Args[1])
 			switch cause {
 			case "Unavailable", "Canceled", "Internal", "operator-status":
 				r.ok(cconstruct, posOf(p, call), "scheduler-produced error: "+cause)
@@ -306,6 +306,54 @@ func c02Single(c *Ctx) *RuleResult {
 		}
 	}
 	return r
+}
+
+// shortCauseIn: shortCause, looking through local variables the expression is built from
+// (`failure := status.Newf(codes.Internal, ...); complete(&Response{Status: failure.Proto()})`).
+func shortCauseIn(u *FuncUnit, e ast.Expr) string {
+	if c := shortCause(e); c != "other" && c != "passed-through" {
+		return c
+	}
+	first := shortCause(e)
+	info := u.Info()
+	seen := map[types.Object]bool{}
+	var visit func(e ast.Expr, depth int) string
+	visit = func(e ast.Expr, depth int) string {
+		res := ""
+		ast.Inspect(e, func(n ast.Node) bool {
+			id, ok := n.(*ast.Ident)
+			if !ok || res != "" {
+				return true
+			}
+			v, ok := info.Uses[id].(*types.Var)
+			if !ok || v.IsField() || seen[v] || depth > 3 {
+				return true
+			}
+			seen[v] = true
+			ast.Inspect(u.Decl.Body, func(m ast.Node) bool {
+				as, ok := m.(*ast.AssignStmt)
+				if !ok || len(as.Lhs) != len(as.Rhs) {
+					return true
+				}
+				for i, l := range as.Lhs {
+					if lid, ok := l.(*ast.Ident); ok && info.ObjectOf(lid) == v {
+						if c := shortCause(as.Rhs[i]); c != "other" && c != "passed-through" {
+							res = c
+						} else if c := visit(as.Rhs[i], depth+1); c != "" {
+							res = c
+						}
+					}
+				}
+				return true
+			})
+			return true
+		})
+		return res
+	}
+	if c := visit(e, 0); c != "" {
+		return c
+	}
+	return first
 }
 
 func shortCause(e ast.Expr) string {
